@@ -1,4 +1,4 @@
-import LinOp.C07.ProofsInterp
+import LinOp.C07.ProofsRoot
 /-!
 C07 — the structural induction over every constructor except the Toeplitz leaf (whose step lemma is a hypothesis).
 -/
@@ -27,6 +27,12 @@ def toeplitzFree : {n m : Nat} → Op n m → Prop
   | _, _, .blockDiag _ o => toeplitzFree o
   | _, _, .blockInterleaved _ o => toeplitzFree o
   | _, _, .sumBatch _ o => toeplitzFree o
+  | _, _, .transpose o => toeplitzFree o
+  | _, _, .root o => toeplitzFree o
+  | _, _, .mulRoot a b => toeplitzFree a ∧ toeplitzFree b
+  | _, _, .kron a b => toeplitzFree a ∧ toeplitzFree b
+  | _, _, .catRows a b => toeplitzFree a ∧ toeplitzFree b
+  | _, _, .catCols a b => toeplitzFree a ∧ toeplitzFree b
 
 /-- Structural induction over ALL constructors; the Toeplitz leaf is discharged either by `toeplitzFree` or by `ToeplitzOK`. -/
 theorem all_correct {n m : Nat} (o : Op n m) (ht : toeplitzFree o ∨ (∀ k : Nat, Correct α (.toeplitz k))) :
@@ -69,5 +75,27 @@ theorem all_correct {n m : Nat} (o : Op n m) (ht : toeplitzFree o ∨ (∀ k : N
   | sumBatch k o ih =>
     have := ih (ht.imp (by simp [toeplitzFree]) id)
     exact ⟨reOK_sumBatch k o this.1, correct_sumBatch k o this.2⟩
+  | transpose o ih =>
+    have := ih (ht.imp (by simp [toeplitzFree]) id)
+    exact ⟨reOK_transpose o this.1, correct_transpose o this.2⟩
+  | root o ih =>
+    have := ih (ht.imp (by simp [toeplitzFree]) id)
+    exact ⟨reOK_root o this.1, correct_root o this.1 this.2⟩
+  | mulRoot a b iha ihb =>
+    have ha := iha (ht.imp (fun h => by simp [toeplitzFree] at h; exact h.1) id)
+    have hb := ihb (ht.imp (fun h => by simp [toeplitzFree] at h; exact h.2) id)
+    exact ⟨reOK_mulRoot a b ha.1 hb.1, correct_mulRoot a b ha.1 hb.1 ha.2 hb.2⟩
+  | kron a b iha ihb =>
+    have ha := iha (ht.imp (fun h => by simp [toeplitzFree] at h; exact h.1) id)
+    have hb := ihb (ht.imp (fun h => by simp [toeplitzFree] at h; exact h.2) id)
+    exact ⟨reOK_kron a b ha.1 hb.1, correct_kron a b ha.1 hb.1 ha.2 hb.2⟩
+  | catRows a b iha ihb =>
+    have ha := iha (ht.imp (fun h => by simp [toeplitzFree] at h; exact h.1) id)
+    have hb := ihb (ht.imp (fun h => by simp [toeplitzFree] at h; exact h.2) id)
+    exact ⟨reOK_catRows a b ha.1 hb.1, correct_catRows a b ha.2 hb.2⟩
+  | catCols a b iha ihb =>
+    have ha := iha (ht.imp (fun h => by simp [toeplitzFree] at h; exact h.1) id)
+    have hb := ihb (ht.imp (fun h => by simp [toeplitzFree] at h; exact h.2) id)
+    exact ⟨reOK_catCols a b ha.1 hb.1, correct_catCols a b ha.2 hb.2⟩
 
 end LinOp.C07
